@@ -192,7 +192,7 @@ func (e *Encoder) writeValue(val reflect.Value, tagType byte) error {
 			if arrType != eleType {
 				return fmt.Errorf("cannot encode a list of mixed tag types 0x%02x and 0x%02x", eleType, arrType)
 			}
-			err := e.writeValue(arrVal, arrType)
+			err := e.marshal(arrVal, arrType)
 			if err != nil {
 				return err
 			}
@@ -353,7 +353,13 @@ func getTagType(v reflect.Value) (byte, reflect.Value) {
 	case reflect.Array, reflect.Slice:
 		var elemType byte
 		if v.Len() > 0 {
-			elemType, _ = getTagType(v.Index(0))
+			var elem reflect.Value
+			elemType, elem = getTagType(v.Index(0))
+			if elem.CanInterface() {
+				if _, ok := elem.Interface().(Marshaler); ok {
+					return TagList, v // elements that write themselves never form a typed array
+				}
+			}
 		} else {
 			elemType = getTagTypeByType(v.Type().Elem())
 		}
